@@ -40,6 +40,7 @@ type Prog struct {
 	sccCache      map[*ssa.Function]map[*ssa.BasicBlock]int
 	rpoCache      map[*ssa.Function]map[*ssa.BasicBlock]int
 	inPhi         map[*ssa.Phi]bool
+	inLinPhi      map[*ssa.Phi]bool
 }
 
 var tyArgs = regexp.MustCompile(`\[[^\[\]]*\]`)
